@@ -24,6 +24,9 @@ package ddata
 
 import (
 	"fmt"
+	"reflect"
+
+	"google.golang.org/protobuf/proto"
 
 	"github.com/tochemey/goakt/v4/crdt"
 	"github.com/tochemey/goakt/v4/internal/internalpb"
@@ -285,6 +288,7 @@ func decodeORMap(pb *internalpb.ORMapData, serializer remote.Serializer) (*crdt.
 		if err != nil {
 			return nil, fmt.Errorf("failed to decode ORMap key: %w", err)
 		}
+		key = comparableElement(key)
 		data, err := DecodeCRDT(e.GetValue(), serializer)
 		if err != nil {
 			return nil, fmt.Errorf("failed to decode ORMap value for key=%v: %w", key, err)
@@ -339,10 +343,27 @@ func decodeORSetEntries(pb *internalpb.ORSetData, serializer remote.Serializer) 
 		if err != nil {
 			return nil, fmt.Errorf("decode ORSet element: %w", err)
 		}
+		elem = comparableElement(elem)
 		entries = append(entries, crdt.Entry{
 			Element: elem,
 			Dots:    dots,
 		})
 	}
 	return entries, nil
+}
+
+// comparableElement undoes the pointer indirection the CBOR serializer adds
+// to registered struct types. Set elements and map keys are compared with ==,
+// so a struct value that was added as an element must come back as the same
+// struct value, not as a fresh pointer that is equal to nothing (not even to
+// another decoded copy of the same element).
+func comparableElement(v any) any {
+	if _, ok := v.(proto.Message); ok {
+		return v
+	}
+	rv := reflect.ValueOf(v)
+	if rv.Kind() == reflect.Pointer && !rv.IsNil() && rv.Elem().Kind() == reflect.Struct && rv.Elem().Type().Comparable() {
+		return rv.Elem().Interface()
+	}
+	return v
 }
